@@ -1288,6 +1288,10 @@ class DS:
                 c = self.coords[k]
                 out = c._new(c.dims, c.data, {n: cc for n, cc in self.coords.items() if set(cc.dims) <= set(c.dims)})
                 return out
+            if k in self.dims:
+                # a dimension without coordinate: xarray hands out the default integer index
+                n = ext(self.dims[k])
+                return DA(Arr((n,), lambda idx: idx[0], "i"), dims=(k,), name=k)
             raise KeyError(k)
         if isinstance(k, (list, tuple)):
             return DS({n: self.vars[n] for n in k}, coords=self.coords, attrs=self.attrs)
@@ -1398,8 +1402,30 @@ class DS:
             out.coords.pop(n, None)
         return out
 
+    def drop_dims(self, dims, errors="raise"):
+        if isinstance(dims, str):
+            dims = [dims]
+        out = self.copy()
+        for d in dims:
+            if d not in self.dims:
+                if errors == "raise":
+                    raise ValueError(f"Dataset does not contain the dimensions: {d}")
+                continue
+            for k in [k for k, v in out.vars.items() if d in v.dims]:
+                del out.vars[k]
+            for k in [k for k, v in out.coords.items() if d in v.dims]:
+                del out.coords[k]
+        return out
+
+    @property
+    def variables(self):
+        d = dict(self.coords)
+        d.update(self.vars)
+        return d
+
     def transpose(self, *dims):
-        return self._map(lambda v: v.transpose(*[d for d in dims if d in v.dims]))
+        dims = [d for d in dims if d is not Ellipsis]
+        return self._map(lambda v: v.transpose(*([d for d in dims if d in v.dims] + [d for d in v.dims if d not in dims])))
 
     def chunk(self, chunks=None, **kw):
         return self._map(lambda v: v.chunk({d: c for d, c in (chunks or {}).items() if d in v.dims}))
@@ -1408,6 +1434,21 @@ class DS:
         return self._map(lambda v: v * o)
 
     __rmul__ = __mul__
+
+    def __truediv__(self, o):
+        return self._map(lambda v: v / o)
+
+    def __rpow__(self, o):
+        return self._map(lambda v: o ** v)
+
+    def __pow__(self, o):
+        return self._map(lambda v: v ** o)
+
+    def __add__(self, o):
+        return self._map(lambda v: v + o)
+
+    def fillna(self, v):
+        return self._map(lambda x: x.fillna(v))
 
     def equals(self, other):
         if set(self.vars) != set(other.vars) or set(self.coords) != set(other.coords):
